@@ -310,6 +310,15 @@ def tr_expr(cx, env, e):
                     v = cx.tmp()
                     return v, 'tup', pa + pn + ps + ['let %s ← Py.toBytes %s %s %s' % (v, a, n, s)]
         dcall = dotted(f)
+        if (dcall == 'int.from_bytes' and len(e.args) == 2 and isinstance(e.args[1], ast.Constant) and e.args[1].value == 'big'
+                and len(e.keywords) == 1 and e.keywords[0].arg == 'signed'):
+            a0 = e.args[0]
+            if isinstance(a0, ast.Call) and isinstance(a0.func, ast.Name) and a0.func.id == 'bytes' and len(a0.args) == 1:
+                a0 = a0.args[0]
+            a, ta, pa = tr_expr(cx, env, a0)
+            sg, ts, ps = tr_expr(cx, env, e.keywords[0].value)
+            if ta == 'tup' and ts == 'bool':
+                return '(Py.fromBytes %s %s)' % (a, sg), 'int', pa + ps
         if dcall in cx.spec.get('calls', {}):
             info = cx.spec['calls'][dcall]
             args = []
@@ -318,9 +327,18 @@ def tr_expr(cx, env, e):
                 pn = 'self_' + nm
                 cx.self_params[pn] = cx.spec['self'][nm]
                 args.append(pn)
+            actual = list(e.args)
             if e.keywords:
-                raise Unsupported('keyword arguments in call %s' % unparse(e))
-            for a in e.args:
+                names_ = info.get('params')
+                if not names_ or any(k.arg not in names_ for k in e.keywords):
+                    raise Unsupported('keyword arguments in call %s' % unparse(e))
+                slots = {names_[i]: a for i, a in enumerate(actual)}
+                for k in e.keywords:
+                    slots[k.arg] = k.value
+                if sorted(slots) != sorted(names_):
+                    raise Unsupported('call %s does not give every parameter' % unparse(e))
+                actual = [slots[n_] for n_ in names_]
+            for a in actual:
                 v, tv, pv = tr_expr(cx, env, a)
                 args.append(v)
                 pre += pv
